@@ -56,10 +56,21 @@ type waitReadCloser struct {
 
 	// wait is closed once: reads keep failing after EOF, and Close may follow
 	closeWait sync.Once
+
+	// eof is set once the body reported EOF. From then on the upload request
+	// completes and net/http closes the body, so reading it again would yield
+	// "invalid Read on closed Body" instead of EOF.
+	eof bool
 }
 
 func (w *waitReadCloser) Read(p []byte) (int, error) {
+	if w.eof {
+		return 0, io.EOF
+	}
 	n, err := w.ReadCloser.Read(p)
+	if err == io.EOF {
+		w.eof = true
+	}
 	if err != nil {
 		w.closeWait.Do(func() { close(w.wait) })
 	}
